@@ -20,7 +20,13 @@ BASE_TEXT = "1.3.6.1.4.1.9999.5"
 # (128 = 81 00, 16384 = 81 80 00): byte order and arc order differ there
 NAMES2 = {(1, 2): bytes(P + [4, 0x81, 0x00]), (1, 3): bytes(P + [5]), (1, 3, 1): bytes(P + [5, 0x81, 0x00, 10, 0, 0, 5]),
           (1, 3, 2): bytes(P + [5, 0x81, 0x80, 0x00, 10, 0, 0, 4]), (1, 4): bytes(P + [6])}
-UNIVERSES = [NAMES, NAMES2]
+# a third one whose BASE has sub-identifiers on both sides of the base-128 length steps (127 = 7f, 128 = 81 00, 16383 = ff 7f):
+# the root of the walk is encoded by the library from text, the replies come in canonical form from the agent
+Q = [43, 6, 1, 2, 1, 127, 0x81, 0x00, 0xFF, 0x7F]
+NAMES3 = {(1, 2): bytes(Q + [4]), (1, 3): bytes(Q + [5]), (1, 3, 1): bytes(Q + [5, 127]), (1, 3, 2): bytes(Q + [5, 0x81, 0x00]), (1, 4): bytes(Q + [6])}
+BASE3_TEXT = "1.3.6.1.2.1.127.128.16383.5"
+UNIVERSES = [(BASE_TEXT, NAMES), (BASE_TEXT, NAMES2), (BASE3_TEXT, NAMES3)]
+NU = len(UNIVERSES)
 
 
 def export(bulk, maxvb):
@@ -69,10 +75,11 @@ async def run_async(rec, cfg, items, uni=0):
         agent = ag.Agent(engine=cfg.engine or None) if cfg.engine else ag.Agent()
         state = {"resp": lambda req: []}
         api = await apidrv.AsyncApi.create(rec, cfg, lambda req: state["resp"](req), timeout=1.0)
-        state["resp"] = walks.scripted_responder(agent, api.cfgref, script, UNIVERSES[(k + uni) % 2])
-        await walks.walk_async(api, op, BASE_TEXT, 3 if op == "getbulk" else None, limit=40, style=walks.STYLES[len(json.dumps(script)) % 4])
+        base_text, names = UNIVERSES[(k + uni) % NU]
+        state["resp"] = walks.scripted_responder(agent, api.cfgref, script, names)
+        await walks.walk_async(api, op, base_text, 3 if op == "getbulk" else None, limit=40, style=walks.STYLES[len(json.dumps(script)) % 4])
         api.close()
-        runs.append((a, rec.n, dict(kind="async", ver=cfg.ver, op=op, script=script, universe=(k + uni) % 2)))
+        runs.append((a, rec.n, dict(kind="async", ver=cfg.ver, op=op, script=script, universe=(k + uni) % NU)))
     return runs
 
 
@@ -83,10 +90,11 @@ def run_sync(rec, cfg, items, uni=0):
         agent = ag.Agent(engine=cfg.engine or None) if cfg.engine else ag.Agent()
         state = {"resp": lambda req: []}
         api = apidrv.SyncApi(rec, cfg, lambda req: state["resp"](req), timeout=1.0)
-        state["resp"] = walks.scripted_responder(agent, api.cfgref, script, UNIVERSES[(k + uni) % 2])
-        walks.walk_sync(api, op, BASE_TEXT, 3 if op == "getbulk" else None, limit=40, style=walks.STYLES[(len(json.dumps(script)) + 1) % 4])
+        base_text, names = UNIVERSES[(k + uni) % NU]
+        state["resp"] = walks.scripted_responder(agent, api.cfgref, script, names)
+        walks.walk_sync(api, op, base_text, 3 if op == "getbulk" else None, limit=40, style=walks.STYLES[(len(json.dumps(script)) + 1) % 4])
         api.close()
-        runs.append((a, rec.n, dict(kind="sync", ver=cfg.ver, op=op, script=script, universe=(k + uni) % 2)))
+        runs.append((a, rec.n, dict(kind="sync", ver=cfg.ver, op=op, script=script, universe=(k + uni) % NU)))
     return runs
 
 
@@ -132,7 +140,8 @@ def run(tier):
     rec = trace.Recorder("c06")
     runs = []
     runs += asyncio.run(run_async(rec, std["v2c"], items, 0))
-    runs += asyncio.run(run_async(rec, std["v2c"], items if thorough else items[::2], 1))      # the other universe
+    runs += asyncio.run(run_async(rec, std["v2c"], items if thorough else items[::2], 1))      # the other universes
+    runs += asyncio.run(run_async(rec, std["v2c"], items if thorough else items[1::2], 2))
     pick = lambda n, off: [x for i, x in enumerate(items) if thorough or (i + off + SEED) % n == 0]
     runs += run_sync(rec, std["v2c"], pick(3, 0))
     runs += run_sync(rec, std["v1"], [x for x in pick(6, 1) if x[0] == "getnext"])
